@@ -440,6 +440,7 @@ type vm struct {
 	tags       cloud.InstanceTags
 	booted     bool
 	broken     bool // unresponsive: every command fails
+	hang       bool // unresponsive with slow failures: every connection attempt hangs until a timeout, the failure arrives a tick late
 	rbroken    bool // `crunch-run --list` says "broken"
 	destroyReq bool // the current dispatcher generation has called Destroy (whatever the answer)
 	pre        bool // existed before the first dispatcher started
@@ -472,6 +473,7 @@ type fakeCloud struct {
 	armCreateFail  bool
 	armDestroyFail bool
 	armListFail    bool
+	armKillFail    bool // the next `crunch-run --kill` that finds a live process fails and the process survives it
 	destroyed      int
 }
 
@@ -666,6 +668,13 @@ func (fe *fakeExec) Execute(env map[string]string, cmd string, stdin io.Reader) 
 		uuid := strings.Trim(strings.TrimPrefix(cmd, "crunch-run --detach --stdin-env "), "' ")
 		s.onDetach(v, uuid)
 	}
+	if v.hang {
+		// blackholed address / half-dead VM: the connection attempt hangs until a timeout longer than a
+		// tick; nothing happens on the VM, the dispatcher sees the failure late (a cloud sync, a queue
+		// poll and scheduling passes run meanwhile)
+		s.holdBack("hang", fe.epoch)
+		return nil, []byte("connection timed out"), errors.New("ssh: connect: connection timed out")
+	}
 	if v.broken {
 		return nil, []byte("cannot fork"), errors.New("exit status 2")
 	}
@@ -728,6 +737,13 @@ func (fe *fakeExec) Execute(env map[string]string, cmd string, stdin io.Reader) 
 		s.kills++
 		if p.unkillable {
 			s.note("%s: SIGTERM for c%d ignored", v.id, p.cidx)
+			return nil, []byte(uuid + ": container is running"), errors.New("exit status 1")
+		}
+		if s.cloud.armKillFail {
+			// slow teardown (arv-mount still unmounting): this attempt is not confirmed, the process is
+			// still alive when `crunch-run --kill` gives up waiting; a later attempt succeeds
+			s.cloud.armKillFail = false
+			s.note("%s: SIGTERM for c%d: process still alive when --kill returns (injected)", v.id, p.cidx)
 			return nil, []byte(uuid + ": container is running"), errors.New("exit status 1")
 		}
 		s.note("%s: SIGTERM for c%d -> process exits", v.id, p.cidx)
@@ -863,6 +879,11 @@ func (s *sys) slow(kind string, epoch int) {
 		return
 	}
 	delete(s.armSlow, kind)
+	s.holdBack(kind, epoch)
+}
+
+// holdBack parks the calling dispatcher task until the end of the next tick.
+func (s *sys) holdBack(kind string, epoch int) {
 	h := &hold{kind: kind, born: s.ticks}
 	s.holds = append(s.holds, h)
 	s.note("answer to %s is held back", kind)
@@ -1186,7 +1207,7 @@ func (s *sys) afterTick() {
 			e, cached := cache[p.uuid]
 			notRunnable := q.HaveAuth && s.epochTicks >= 2 && (!cached || e.State == arvados.ContainerStateCancelled || e.State == arvados.ContainerStateComplete ||
 				e.State == arvados.ContainerStateQueued || e.Priority == 0)
-			if p.stale || v.broken || !v.booted || !tracked || !notRunnable || p.killSeen > 0 {
+			if p.stale || v.broken || v.hang || !v.booted || !tracked || !notRunnable || p.killSeen > 0 {
 				p.waitTicks = 0
 				continue
 			}
@@ -1218,7 +1239,7 @@ func (s *sys) liveProc(cidx int) (*vm, *proc) {
 }
 
 // faultEvents: classes that cost one unit of the fault budget.
-var faultClasses = map[string]bool{"crash": true, "stale": true, "linger": true, "break": true, "rbroken": true, "gone": true,
+var faultClasses = map[string]bool{"crash": true, "stale": true, "linger": true, "break": true, "hang": true, "rbroken": true, "gone": true,
 	"arm": true, "hold": true, "drain": true, "unhold": true, "restart": true}
 
 func eventCost(ev string) int {
@@ -1264,6 +1285,10 @@ func (s *sys) enabledEvents() []string {
 		if cfg.has("cancel") && active {
 			out = append(out, fmt.Sprintf("cancel:%d", c.idx))
 		}
+		// the user releases a container that was put on hold
+		if cfg.has("prio1") && active && c.prio == 0 {
+			out = append(out, fmt.Sprintf("prio1:%d", c.idx))
+		}
 	}
 	// faults
 	for _, c := range s.api.ctrs {
@@ -1284,6 +1309,9 @@ func (s *sys) enabledEvents() []string {
 	for _, v := range s.cloud.vms {
 		if cfg.has("break") && !v.broken {
 			out = append(out, "break:"+v.id)
+		}
+		if cfg.has("hang") && !v.hang && !v.broken {
+			out = append(out, "hang:"+v.id)
 		}
 		if cfg.has("rbroken") && !v.rbroken && v.booted {
 			out = append(out, "rbroken:"+v.id)
@@ -1328,6 +1356,15 @@ func (s *sys) enabledEvents() []string {
 	}
 	if cfg.has("listfail") && !fc.armListFail {
 		out = append(out, "arm:listfail")
+	}
+	anyKillable := false
+	for _, v := range fc.vms {
+		for _, p := range v.procs {
+			anyKillable = anyKillable || (!p.stale && !p.unkillable)
+		}
+	}
+	if cfg.has("killfail") && !fc.armKillFail && anyKillable {
+		out = append(out, "arm:killfail")
 	}
 	// a late answer / request is armed only in states where a call of that kind can follow soon (an
 	// armed flag waits for the next such call, so arming earlier reaches nothing new)
@@ -1401,6 +1438,10 @@ func (s *sys) apply(ev string) {
 		if c := ctr(); c != nil {
 			s.api.set(c, c.state, 0, c.mine, "user")
 		}
+	case "prio1":
+		if c := ctr(); c != nil {
+			s.api.set(c, c.state, 1, c.mine, "user")
+		}
 	case "cancel":
 		if c := ctr(); c != nil {
 			s.api.set(c, arvados.ContainerStateCancelled, c.prio, false, "user")
@@ -1412,6 +1453,10 @@ func (s *sys) apply(ev string) {
 	case "break":
 		if v := s.cloud.find(arg); v != nil {
 			v.broken = true
+		}
+	case "hang":
+		if v := s.cloud.find(arg); v != nil {
+			v.hang = true
 		}
 	case "rbroken":
 		if v := s.cloud.find(arg); v != nil {
@@ -1469,6 +1514,8 @@ func (s *sys) apply(ev string) {
 			s.cloud.armDestroyFail = true
 		case "listfail":
 			s.cloud.armListFail = true
+		case "killfail":
+			s.cloud.armKillFail = true
 		default:
 			if strings.HasPrefix(arg, "slow-") {
 				s.armSlow[strings.TrimPrefix(arg, "slow-")] = true
@@ -1582,9 +1629,9 @@ func (s *sys) canonical() string {
 	}
 	fmt.Fprintf(&b, " arm[%v %v]", s.api.armLockFail, s.api.armAPIErr)
 	fc := s.cloud
-	fmt.Fprintf(&b, "\nCLOUD n=%d cap-left=%d arm[%v %v %v %v %v]", len(fc.vms), s.capLeft(), fc.armCreateQuota, fc.armCreateRate, fc.armCreateFail, fc.armDestroyFail, fc.armListFail)
+	fmt.Fprintf(&b, "\nCLOUD n=%d cap-left=%d arm[%v %v %v %v %v %v]", len(fc.vms), s.capLeft(), fc.armCreateQuota, fc.armCreateRate, fc.armCreateFail, fc.armDestroyFail, fc.armListFail, fc.armKillFail)
 	for _, v := range fc.vms {
-		fmt.Fprintf(&b, "\n %s:%s idle=%s boot=%v broken=%v rbroken=%v dreq=%v pre=%v probe=%d", rename[v.id], v.typ, v.tags["IdleBehavior"], v.booted, v.broken, v.rbroken, v.destroyReq, v.pre, satInt(s.ticks-v.lastProbe, 2+s.cfg.probeTicks()))
+		fmt.Fprintf(&b, "\n %s:%s idle=%s boot=%v broken=%v hang=%v rbroken=%v dreq=%v pre=%v probe=%d", rename[v.id], v.typ, v.tags["IdleBehavior"], v.booted, v.broken, v.hang, v.rbroken, v.destroyReq, v.pre, satInt(s.ticks-v.lastProbe, 2+s.cfg.probeTicks()))
 		if s.cfg.Mon {
 			fmt.Fprintf(&b, " mon=%v/%v/%d", v.brokenTold, v.brokenKnown, v.shutTicks)
 		}
